@@ -539,6 +539,9 @@ type AnimEncoder struct {
 	countSinceKeyframe int                // Frames since the last keyframe.
 	prevFrameRect      image.Rectangle    // Bounding rect of previous frame (for dispose-bg). Always valid after a frame is committed.
 	prevMuxIndex       int                // Index of previous frame in muxer (for retroactive dispose update).
+
+	// Metadata given through SetICCProfile/SetEXIF/SetXMP (non-empty).
+	hasICC, hasEXIF, hasXMP bool
 }
 
 // sanitizeKeyframeOptions adjusts kmin/kmax to valid ranges, matching the
@@ -1169,16 +1172,19 @@ func (e *AnimEncoder) AddRawFrame(bitstreamData []byte, duration time.Duration, 
 
 // SetICCProfile sets the ICC color profile for the output file.
 func (e *AnimEncoder) SetICCProfile(data []byte) {
+	e.hasICC = len(data) > 0
 	e.muxer.SetICCProfile(data)
 }
 
 // SetEXIF sets EXIF metadata for the output file.
 func (e *AnimEncoder) SetEXIF(data []byte) {
+	e.hasEXIF = len(data) > 0
 	e.muxer.SetEXIF(data)
 }
 
 // SetXMP sets XMP metadata for the output file.
 func (e *AnimEncoder) SetXMP(data []byte) {
+	e.hasXMP = len(data) > 0
 	e.muxer.SetXMP(data)
 }
 
@@ -1204,7 +1210,10 @@ func (e *AnimEncoder) Close() error {
 	// Single-frame optimization: if there is exactly 1 frame and we have
 	// the canvas image and the simple encoder, try encoding as a simple
 	// WebP and pick the smaller output.
-	if e.frameCount == 1 && e.prevCanvas != nil && SimpleEncodeFunc != nil {
+	// The simple encoding carries no metadata, so it is only a candidate when
+	// none was set.
+	hasMetadata := e.hasICC || e.hasEXIF || e.hasXMP
+	if e.frameCount == 1 && e.prevCanvas != nil && SimpleEncodeFunc != nil && !hasMetadata {
 		simpleData, err := SimpleEncodeFunc(e.prevCanvas, e.opts.Lossless, float32(e.opts.Quality))
 		if err == nil && len(simpleData) > 0 && len(simpleData) < len(animData) {
 			_, writeErr := e.w.Write(simpleData)
